@@ -137,6 +137,98 @@ macro_rules! node_ops {
                     }
                 }
             }
+            /// Every accessor of every node agrees with the node's variant (the view a user of the
+            /// typed API has of "the same data").
+            pub fn accessors<'a>(n: &$ty, ntname: &str, s: &str, acc: &mut Acc) {
+                let c = canon(n);
+                let d = &n$($data)*;
+                let mut bad: Vec<&'static str> = vec![];
+                let mut chk = |name: &'static str, ok: bool| {
+                    if !ok {
+                        bad.push(name);
+                    }
+                };
+                chk("is_null", d.is_null() == (c == Canon::Null));
+                chk("is_boolean", d.is_boolean() == matches!(c, Canon::Bool(_)));
+                chk("is_integer", d.is_integer() == matches!(c, Canon::Int(_)));
+                chk("is_floating_point", d.is_floating_point() == matches!(c, Canon::Float(_)));
+                chk("is_string", d.is_string() == matches!(c, Canon::Str(_)));
+                chk("is_sequence", d.is_sequence() == matches!(c, Canon::Seq(_)));
+                chk("is_mapping", d.is_mapping() == matches!(c, Canon::Map(_)));
+                chk("is_badvalue", d.is_badvalue() == (c == Canon::Bad));
+                chk("is_alias", d.is_alias() == matches!(c, Canon::Alias(_)));
+                chk("is_representation", d.is_representation() == matches!(c, Canon::Rep(..)));
+                chk("is_value", d.is_value() == matches!(c, Canon::Null | Canon::Bool(_) | Canon::Int(_) | Canon::Float(_) | Canon::Str(_)));
+                chk("as_bool", d.as_bool() == if let Canon::Bool(b) = &c { Some(*b) } else { None });
+                chk("as_integer", d.as_integer() == if let Canon::Int(i) = &c { Some(*i) } else { None });
+                chk("as_floating_point", d.as_floating_point().map(float_bits) == if let Canon::Float(b) = &c { Some(*b) } else { None });
+                chk("as_str", d.as_str() == if let Canon::Str(x) = &c { Some(x.as_str()) } else { None });
+                let seq_len = if let Canon::Seq(v) = &c { Some(v.len()) } else { None };
+                let map_len = if let Canon::Map(v) = &c { Some(v.len()) } else { None };
+                chk("as_sequence", d.as_sequence().map(|v| v.len()) == seq_len);
+                chk("as_vec", d.as_vec().map(|v| v.len()) == seq_len);
+                chk("as_mapping", d.as_mapping().map(|m| m.len()) == map_len);
+                // mutable and consuming flavours, on copies
+                let mut m = n.clone();
+                {
+                    let dm = &mut m$($data)*;
+                    chk("as_bool_mut", dm.as_bool_mut().map(|x| *x) == d.as_bool());
+                    chk("as_integer_mut", dm.as_integer_mut().map(|x| *x) == d.as_integer());
+                    chk("as_floating_point_mut", dm.as_floating_point_mut().map(|x| float_bits(*x)) == d.as_floating_point().map(float_bits));
+                    chk("as_str_mut", dm.as_str_mut().map(|x| x.to_string()) == d.as_str().map(|x| x.to_string()));
+                    chk("as_sequence_mut", dm.as_sequence_mut().map(|v| v.len()) == seq_len);
+                    chk("as_vec_mut", dm.as_vec_mut().map(|v| v.len()) == seq_len);
+                    chk("as_mapping_mut", dm.as_mapping_mut().map(|v| v.len()) == map_len);
+                }
+                chk("into_bool", n.clone()$($data)*.into_bool() == d.as_bool());
+                chk("into_integer", n.clone()$($data)*.into_integer() == d.as_integer());
+                chk("into_floating_point", n.clone()$($data)*.into_floating_point().map(float_bits) == d.as_floating_point().map(float_bits));
+                chk("into_string", n.clone()$($data)*.into_string() == d.as_str().map(|x| x.to_string()));
+                chk("into_vec", n.clone()$($data)*.into_vec().map(|v| v.len()) == seq_len);
+                chk("into_sequence", n.clone()$($data)*.into_sequence().map(|v| v.len()) == seq_len);
+                chk("into_mapping", n.clone()$($data)*.into_mapping().map(|v| v.len()) == map_len);
+                // consuming iteration yields the items of a sequence in order and nothing for anything else
+                {
+                    let it: Vec<Canon> = n.clone()$($data)*.into_iter().map(|x| canon(&x)).collect();
+                    chk("into_iter", if let Canon::Seq(items) = &c { it == *items } else { it.is_empty() });
+                }
+                if let Canon::Seq(items) = &c {
+                    for i in [0usize, items.len().saturating_sub(1), items.len()] {
+                        let want = items.get(i);
+                        chk("as_sequence_get", d.as_sequence_get(i).map(canon).as_ref() == want);
+                        chk("as_sequence_get_mut", m$($data)*.as_sequence_get_mut(i).map(|x| canon(&*x)).as_ref() == want);
+                    }
+                } else {
+                    chk("as_sequence_get(non-sequence)", d.as_sequence_get(0).is_none());
+                }
+                for name in bad {
+                    acc.violation(Violation { key: format!("accessor-disagrees nt={ntname} accessor={name} variant={}", variant_name(&c)), expected: format!("the view of the variant {c:?}"), observed: format!("{name} says otherwise"), case: str_case(s), size: s.len() });
+                }
+                if let Some(v) = d.as_sequence() {
+                    for x in v.iter() {
+                        accessors(x, ntname, s, acc);
+                    }
+                }
+                if let Some(mm) = d.as_mapping() {
+                    for (k, v) in mm.iter() {
+                        accessors(k, ntname, s, acc);
+                        accessors(v, ntname, s, acc);
+                    }
+                }
+            }
+            pub fn accessors_of_input<'a>(s: &'a str, ntname: &str, acc: &mut Acc) {
+                use saphyr::LoadableYamlNode;
+                if let Ok(Ok(docs)) = catch_unwind(AssertUnwindSafe(|| <$ty>::load_from_str(s))) {
+                    for d in &docs {
+                        accessors(d, ntname, s, acc);
+                    }
+                }
+                if let Ok(Ok(docs)) = catch_unwind(AssertUnwindSafe(|| load_deferred(s))) {
+                    for d in &docs {
+                        accessors(d, ntname, s, acc);
+                    }
+                }
+            }
             /// All histories up to `depth` on one deferred document, against the model.
             pub fn histories<'a>(doc: &$ty, depth: usize, ntname: &str, s: &str, acc: &mut Acc) -> u64 {
                 let start = canon(doc);
@@ -184,6 +276,20 @@ node_ops!(ops_owned, YamlOwned, canon_owned, YamlOwned::Sequence, YamlOwned::Map
 node_ops!(ops_marked, MarkedYaml<'a>, canon_marked, YamlData::Sequence, YamlData::Mapping, (.data));
 node_ops!(ops_marked_owned, MarkedYamlOwned, canon_marked_owned, YamlDataOwned::Sequence, YamlDataOwned::Mapping, (.data));
 
+fn variant_name(c: &Canon) -> &'static str {
+    match c {
+        Canon::Null => "Null",
+        Canon::Bool(_) => "Bool",
+        Canon::Int(_) => "Int",
+        Canon::Float(_) => "Float",
+        Canon::Str(_) => "Str",
+        Canon::Rep(..) => "Representation",
+        Canon::Bad => "BadValue",
+        Canon::Alias(_) => "Alias",
+        Canon::Seq(_) => "Seq",
+        Canon::Map(_) => "Map",
+    }
+}
 fn diff_kind(model: &Canon, got: &Canon) -> &'static str {
     fn has_bad(c: &Canon) -> bool {
         match c {
@@ -317,6 +423,11 @@ pub fn eval_str(s: &str, depth: usize, acc: &mut Acc) {
     deferred!(ops_owned, "Owned");
     deferred!(ops_marked, "Marked");
     deferred!(ops_marked_owned, "MarkedOwned");
+    // 2b. the typed accessors of every node (eager and deferred documents) agree with its variant
+    ops_yaml::accessors_of_input(s, "Yaml", acc);
+    ops_owned::accessors_of_input(s, "Owned", acc);
+    ops_marked::accessors_of_input(s, "Marked", acc);
+    ops_marked_owned::accessors_of_input(s, "MarkedOwned", acc);
     // 3. marked equality / hashing ignore spans
     if let Ok(Ok(docs)) = catch_unwind(AssertUnwindSafe(|| MarkedYaml::load_from_str(s))) {
         for d in &docs {
